@@ -673,6 +673,34 @@ class _RowEncoder(NamedTuple):
     types: tuple[pa.DataType, ...]
     nulls: tuple["pa.Array[Any]", ...]
     """A length-1 all-null array per column, reused for every unset field."""
+    build_types: tuple[pa.DataType | None, ...]
+    """Dictionary-free type to build a column through before casting, or ``None``.
+
+    Set only for columns that nest a dictionary (an ``Enum``) below a struct,
+    list or map; see :func:`_without_dictionaries`.
+    """
+
+
+def _without_dictionaries(arrow_type: pa.DataType) -> pa.DataType:
+    """Return ``arrow_type`` with every nested ``dictionary<I, V>`` replaced by ``V``.
+
+    pyarrow's Python converter fills the children of a *null* struct slot with
+    "empty" values, and for a dictionary child that is a valid index 0 into a
+    dictionary that may be empty -- an array ``validate(full=True)`` rejects.
+    Building through the dictionary-free type and casting gives those slots an
+    empty value that the dictionary really contains.
+    """
+    if pa.types.is_dictionary(arrow_type):
+        return cast("pa.DataType", arrow_type.value_type)
+    if pa.types.is_struct(arrow_type):
+        return pa.struct([pa.field(f.name, _without_dictionaries(f.type), nullable=f.nullable) for f in arrow_type])
+    if pa.types.is_map(arrow_type):
+        return pa.map_(_without_dictionaries(arrow_type.key_type), _without_dictionaries(arrow_type.item_type))
+    if pa.types.is_large_list(arrow_type):
+        return pa.large_list(_without_dictionaries(arrow_type.value_type))
+    if pa.types.is_list(arrow_type):
+        return pa.list_(_without_dictionaries(arrow_type.value_type))
+    return arrow_type
 
 
 def _row_encoder(cls: "type[ArrowSerializableDataclass]") -> _RowEncoder:
@@ -705,6 +733,10 @@ def _row_encoder(cls: "type[ArrowSerializableDataclass]") -> _RowEncoder:
         names=tuple(schema.names),
         types=types,
         nulls=tuple(pa.nulls(1, type=arrow_type) for arrow_type in types),
+        build_types=tuple(
+            None if pa.types.is_dictionary(t) or _without_dictionaries(t) == t else _without_dictionaries(t)
+            for t in types
+        ),
     )
     cls._cached_row_encoder = encoder
     return encoder
@@ -1338,7 +1370,14 @@ class ArrowSerializableDataclass:
             if value is None:
                 arrays.append(encoder.nulls[index])
             else:
-                arrays.append(pa.array([value], type=encoder.types[index]))
+                build_type = encoder.build_types[index]
+                if build_type is None:
+                    arrays.append(pa.array([value], type=encoder.types[index]))
+                else:
+                    # Nested Enum columns: build dictionary-free, then cast, so a null
+                    # nested dataclass does not leave an out-of-range dictionary index.
+                    plain: pa.Array[Any] = pa.array([value], type=build_type)
+                    arrays.append(plain.cast(encoder.types[index]))
         return pa.RecordBatch.from_arrays(arrays, schema=encoder.schema)
 
     def serialize(self, dest: IOBase) -> None:
